@@ -54,6 +54,9 @@ func builtinScenarios(prop string) map[string]*Case {
 				{{Op: "add", It: g(1)}, {Op: "add", It: g(2)}, {Op: "add", It: g(3)}, {Op: "settle"}, {Op: "release", N: 1}, {Op: "release", N: 2}, {Op: "release", N: 3}, {Op: "settle"}, {Op: "barrier"}, {Op: "add", It: g(7)}, {Op: "tune", V: 1}}}},
 		"restart-vs-resume": {Cfg: Config{Kind: "plain", Queues: []string{"std"}, Conc: 1},
 			Clients: [][]Op{{{Op: "barrier"}, {Op: "restart"}}, {{Op: "barrier"}, {Op: "resume"}}, {{Op: "pause"}, {Op: "add", It: g(1)}, {Op: "add", It: p(2)}, {Op: "settle"}, {Op: "barrier"}}}},
+		"wuf-vs-purge-at-last-completion": {Cfg: Config{Kind: "plain", Queues: []string{"std"}, Conc: 1},
+			Clients: [][]Op{nil, {{Op: "barrier"}, {Op: "wuf"}}, {{Op: "barrier", V: 1}, {Op: "purge"}},
+				{{Op: "add", It: g(1)}, {Op: "add", It: p(2)}, {Op: "settle"}, {Op: "barrier"}, {Op: "settle"}, {Op: "barrier", V: 1}, {Op: "release", N: 1}}}},
 		"idle-expiry": {Cfg: Config{Kind: "plain", Queues: []string{"std"}, Conc: 2, ExpiryUs: 60, FinalStop: true},
 			Clients: [][]Op{nil, {{Op: "add", It: p(1)}, {Op: "add", It: p(2)}, {Op: "sleep", V: 200}, {Op: "add", It: p(3)}, {Op: "wait", N: 3}}}},
 		"samplers": {Cfg: Config{Kind: "plain", Queues: []string{"std"}, Conc: 1},
@@ -62,9 +65,9 @@ func builtinScenarios(prop string) map[string]*Case {
 	use := map[string][]string{
 		"C01": {"qclose-vs-add", "tune-down-with-idle-workers", "two-adds-then-wuf", "pausewait-vs-adds", "stop-restart-vs-adds", "cancel-vs-dispatch", "idle-expiry"},
 		"C02": {"tune-down-under-load", "stop-restart-vs-adds", "tune-down-with-idle-workers", "restart-vs-resume"},
-		"C03": {"two-adds-then-wuf", "pausewait-vs-adds", "idle-expiry", "tune-down-under-load"},
+		"C03": {"two-adds-then-wuf", "pausewait-vs-adds", "idle-expiry", "tune-down-under-load", "wuf-vs-purge-at-last-completion"},
 		"C05": {"cancel-vs-dispatch", "result-batch-of-3", "purge-vs-add", "batch-wait"},
-		"C06": {"two-adds-then-wuf", "pausewait-vs-adds", "stop-restart-vs-adds", "purge-vs-add"},
+		"C06": {"two-adds-then-wuf", "pausewait-vs-adds", "stop-restart-vs-adds", "purge-vs-add", "wuf-vs-purge-at-last-completion"},
 		"C07": {"result-batch-of-3"},
 		"C08": {"result-batch-of-3", "batch-wait"},
 		"C09": {"pausewait-vs-adds", "stop-restart-vs-adds"},
